@@ -9,6 +9,7 @@ import (
 	"os"
 	"strings"
 	"testing"
+	"time"
 
 	quic "github.com/refraction-networking/uquic"
 	"github.com/refraction-networking/uquic/internal/qerr"
@@ -315,6 +316,7 @@ func (rn *runner) AfterPanic(op string) string {
 }
 
 func (rn *runner) Exec(op string) string {
+	defer vh.Watchdog(op, 60*time.Second)()
 	f := strings.Fields(op)
 	rn.fired = rn.fired[:0]
 	a := func(i int) int64 {
